@@ -267,9 +267,11 @@ func getUrl(_token Token, baseUrl string) (url pr.NamedString, attr pr.AttrData,
 		if name == "attr" {
 			attr = checkAttrFunction(token, "url")
 			return
-		} else if L := len(token.Arguments); name == "url" && (L == 1 || L == 2) {
-			val, _ := (token.Arguments)[0].(pa.String)
-			return parseURLToken(val.Value, baseUrl)
+		} else if args := pa.RemoveWhitespace(token.Arguments); name == "url" && len(args) == 1 {
+			// url("..."): a quoted url is tokenized as a function
+			if val, ok := args[0].(pa.String); ok {
+				return parseURLToken(val.Value, baseUrl)
+			}
 		}
 	}
 	return
